@@ -612,3 +612,46 @@ def per_index_values(chk, prog, funcs):
                                           '(its variables %s are not assigned in the loop from loop-indexed data): every entry receives the same, '
                                           'stale value' % (name, f.unit.text(c)[:80], f.unit.text(val)[:60], var, var, sorted(names(val)))))
     return n_inst
+
+
+def sibling_label_arms(chk, prog, funcs):
+    """code that exists once per numbering convention (labels from 0 / labels from 1) must be the same code up to the label offset"""
+    R = chk.rule('OF.sibling-arms', 'the two arms of a test on the first label value (class numbering from 0 / from 1) are structurally identical '
+                 'once every label comparison `label == k + 1` of the from-1 arm is read as `label == k`')
+    n_inst = 0
+    for name in funcs:
+        f = prog.funcs.get(name)
+        if f is None or f.body is None:
+            continue
+        for n in walk(f.body):
+            if n.get('kind') != 'IfStmt':
+                continue
+            c, t, e = flow.if_parts(n)
+            if e is None:
+                continue
+            cs = strip(c)
+            if not (cs.get('kind') == 'BinaryOperator' and cs.get('opcode') == '==' and fe.int_value(kids(cs)[1]) == 0):
+                continue
+            ka, kb = exprs.text_key(t), exprs.text_key(e)
+            # only arms that compare labels with the loop class index
+            import re as _re
+            cmps_b = _re.findall(r'==\((\w+)\+1\)\)', kb)
+            if not cmps_b:
+                continue
+            n_inst += 1
+            kb2 = kb
+            for v in set(cmps_b):
+                kb2 = kb2.replace('==(%s+1))' % v, '==%s)' % v)
+            if ka == kb2:
+                chk.instance(R, '%s %s: both numbering conventions run the same code (label test offset aside)' % (f.unit.where(n), name))
+            else:
+                # first difference, for the message
+                i = 0
+                while i < min(len(ka), len(kb2)) and ka[i] == kb2[i]:
+                    i += 1
+                chk.instance(R, '%s %s: arms differ' % (f.unit.where(n), name), 'refuted')
+                chk.violation(Finding('OF.sibling-arms', rel(f.file), name, 'arms@%s' % exprs.text_key(c), f.unit.where(n),
+                                      '%s: the code for labels starting at 0 and the code for labels starting at 1 differ beyond the label offset: '
+                                      '...%s... versus ...%s...: the two numbering conventions no longer build the same per-class data' %
+                                      (name, ka[max(0, i - 40):i + 50], kb2[max(0, i - 40):i + 50])))
+    return n_inst
